@@ -4,7 +4,11 @@
 // A case is a schedule chosen by TLC: a sequence of items "b:<proc>" (the application of
 // process <proc> makes its next call) and "w:<proc>" (the transport performs the operation
 // <proc> is blocked in: net.Conn.Write for the data writer D and the control senders K1..,
-// net.Conn.Close for the closer X). The connection under test is a real websocket.Conn over
+// net.Conn.Close for the closer X), "b:R" (the peer's next Ping / Close frame is put on the
+// transport: its handler runs on the READING goroutine R of the connection under test and
+// answers - R's transport write is gated like the others) and "a:D" (the application of D,
+// which paused with its message open - after NextWriter, between two Write calls - goes on).
+// The connection under test is a real websocket.Conn over
 // a gated net.Conn: every transport Write/Close of a process goroutine blocks until the
 // scheduler (the goroutine running the case) performs it, so the transport's order is the
 // scheduler's order. Steps the library's lock forbids cannot be forced: a process that does
@@ -56,6 +60,7 @@ type msgPlan struct {
 	API    string `json:"api"`    // "wm": WriteMessage, "nw": NextWriter + Write.. + Close
 	Writes []int  `json:"writes"` // sizes of the data handed over per Write
 	Frames []bool `json:"frames"` // predicted frames (true: header write + extra write)
+	Pause  []int  `json:"pause"`  // "nw": the application pauses after these calls (0: NextWriter, i: the i-th Write)
 }
 
 type schedCase struct {
@@ -64,6 +69,7 @@ type schedCase struct {
 	Wbuf     int        `json:"wbuf"`
 	Msgs     []msgPlan  `json:"msgs"`
 	Ctl      [][]string `json:"ctl"`
+	Rd       []string   `json:"rd"` // answers of the reader's handlers: "pong"/"close" (+"@": default handler)
 	Closer   bool       `json:"closer"`
 	Sched    []string   `json:"sched"`
 	Attack   bool       `json:"attack"`
@@ -231,8 +237,11 @@ type proc struct {
 	goCh   chan struct{}
 	evc    chan procEvent
 	do     func(call int) error
+	reader bool // R: its calls are begun by putting a frame of the peer on the transport
+	inCall bool // R: a handler of an injected frame is running (touched by the reading goroutine only)
 
 	// scheduler side
+	stopped  bool // R: no further frame of the peer can reach a handler
 	begun    int
 	busy     bool
 	derailed bool
@@ -277,6 +286,9 @@ type session struct {
 	writes []*writeRec
 	ev     []traceEv
 
+	peerSide *transport.Conn // the peer's end: frames of the peer are written here
+	rdOpen   map[string]int  // frames of the peer injected while D had its message open: "app"/"write" -> count
+
 	timeouts, skipped int
 	late              int      // predictions of the generator that did not come true in time
 	item              int      // index of the schedule item being executed
@@ -311,8 +323,9 @@ type gateConn struct {
 func (g *gateConn) gated(op string, b []byte) error {
 	s := g.s
 	p := s.byGoid[goid()]
-	if p == nil || p.do == nil {
-		// a goroutine the specification knows nothing about (the reader's handlers): not gated, recorded
+	if p == nil || (p.do == nil && !p.inCall) {
+		// a goroutine the specification knows nothing about, or the reader outside the handlers of the
+		// frames the schedule made the peer send: not gated, recorded
 		name := "?"
 		if p != nil {
 			name = p.name
@@ -359,10 +372,111 @@ func (s *session) performLocked(name string, call int, op string, b []byte) erro
 }
 
 func (s *session) perform(p *proc, e procEvent) {
+	if e.op == "pause" {
+		// the application of D goes on
+		s.record(traceEv{Ev: "resume", Proc: p.name, Call: p.begun, Ok: true})
+		e.reply <- nil
+		return
+	}
 	<-s.umu
 	err := s.performLocked(p.name, p.begun, e.op, e.bytes)
 	s.umu <- struct{}{}
 	e.reply <- err
+}
+
+// pause is called by D's application between two calls on its open message.
+func (p *proc) pause() {
+	reply := make(chan error, 1)
+	p.evc <- procEvent{op: "pause", reply: reply}
+	<-reply
+}
+
+// peerFrame is a control frame as the peer sends it (RFC 6455 5.2; a client's frames are masked - with the key 0).
+func peerFrame(opcode byte, payload []byte, masked bool) []byte {
+	f := []byte{0x80 | opcode, byte(len(payload))}
+	if masked {
+		f[1] |= 0x80
+		f = append(f, 0, 0, 0, 0)
+	}
+	return append(f, payload...)
+}
+
+func rdPayload(j int) string { return fmt.Sprintf("R.%d", j) }
+
+// injected tells which call of R a received payload belongs to (0: none).
+func (s *session) injected(text string) int {
+	for j := 1; j <= len(s.c.Rd); j++ {
+		if text == rdPayload(j) {
+			return j
+		}
+	}
+	return 0
+}
+
+// inject: "b:R". The peer's next frame is put on the transport - unless the transport of the connection
+// under test is closed (nothing can reach the reader any more). The begin event is recorded first, under
+// the lock that orders it with the transport operations.
+func (s *session) inject(p *proc) bool {
+	j := p.begun + 1
+	op := strings.TrimSuffix(s.c.Rd[j-1], "@")
+	var f []byte
+	switch op {
+	case "pong": // the answer to a Ping
+		f = peerFrame(9, []byte(rdPayload(j)), !s.client)
+	case "close":
+		f = peerFrame(8, websocket.FormatCloseMessage(websocket.CloseNormalClosure, rdPayload(j)), !s.client)
+	default:
+		rp.Bug("reader program item %q", s.c.Rd[j-1])
+	}
+	<-s.umu
+	if s.closed {
+		s.umu <- struct{}{}
+		p.stopped = true
+		return false
+	}
+	p.begun++
+	p.busy = true
+	if op == "close" {
+		p.stopped = true // the reader returns the peer's close as an error and reads no more
+	}
+	s.ev = append(s.ev, traceEv{Ev: "begin", Proc: p.name, Call: p.begun, Ok: true, w: -1})
+	if _, err := s.peerSide.Write(f); err != nil {
+		rp.Bug("in-memory transport refused a frame of the peer: %v", err)
+	}
+	s.umu <- struct{}{}
+	if d := s.procs["D"]; d != nil && d.pending != nil {
+		if d.pending.op == "pause" {
+			s.rdOpen["app"]++
+		} else {
+			s.rdOpen["write"]++
+		}
+	}
+	return true
+}
+
+// handle runs the handler of an injected frame on the reading goroutine and reports its return.
+func (s *session) handle(p *proc, j int, dflt bool, h func() error) (err error) {
+	p.inCall = true
+	res := ""
+	defer func() {
+		p.inCall = false
+		if e := recover(); e != nil {
+			if _, ok := e.(rp.HarnessBug); ok {
+				panic(e)
+			}
+			res = fmt.Sprintf("panic: %v", e)
+			s.notePanic(fmt.Sprintf("%s call %d (handler on the reading goroutine): %v\n%s", p.name, j, e, debug.Stack()))
+			err = errors.New("handler panicked")
+		}
+		p.evc <- procEvent{ret: true, call: j, res: res}
+	}()
+	err = h()
+	if dflt {
+		res = "any" // the package's default handlers do not show the result of their write
+	} else {
+		res, err = classify(err), nil
+	}
+	return err
 }
 
 func (s *session) record(e traceEv) {
@@ -434,16 +548,20 @@ func (s *session) onRet(p *proc, e procEvent) {
 	s.record(traceEv{Ev: "ret", Proc: p.name, Call: e.call, Res: e.res, Ok: true})
 }
 
-func (s *session) doBegin(p *proc) {
+func (s *session) doBegin(p *proc) bool {
+	if p.reader {
+		return s.inject(p)
+	}
 	p.begun++
 	p.busy = true
 	s.record(traceEv{Ev: "begin", Proc: p.name, Call: p.begun, Ok: true})
 	p.goCh <- struct{}{}
+	return true
 }
 
 // begin: item "b:p". Reports whether the call was begun.
 func (s *session) begin(p *proc) bool {
-	if p.derailed || p.begun >= p.ncalls {
+	if p.derailed || p.begun >= p.ncalls || p.stopped {
 		s.lose("skip")
 		return false
 	}
@@ -468,7 +586,10 @@ func (s *session) begin(p *proc) bool {
 			return false
 		}
 	}
-	s.doBegin(p)
+	if !s.doBegin(p) {
+		s.lose("skip")
+		return false
+	}
 	return true
 }
 
@@ -480,7 +601,7 @@ func (s *session) begin(p *proc) bool {
 // everything that follows, hiding data races from the detector).
 func (s *session) settle(p *proc, exp string) {
 	switch exp {
-	case "g":
+	case "g", "p":
 		if p.pending != nil || !p.busy {
 			return
 		}
@@ -522,8 +643,9 @@ func (s *session) settle(p *proc, exp string) {
 	}
 }
 
-// step: item "w:p". Reports whether the operation was performed.
-func (s *session) step(p *proc) bool {
+// step: item "w:p" (a transport operation) or "a:p" (pause = true: the application goes on).
+// Reports whether it was performed.
+func (s *session) step(p *proc, pause bool) bool {
 	if p.derailed || !p.busy {
 		s.lose("skip")
 		return false
@@ -543,6 +665,13 @@ func (s *session) step(p *proc) bool {
 	}
 	if e.ret {
 		s.onRet(p, e)
+		s.lose("skip")
+		return false
+	}
+	if (e.op == "pause") != pause {
+		// the process is somewhere else than the schedule thinks: it stays there until the rest is served
+		p.pending = &e
+		p.derailed = true
 		s.lose("skip")
 		return false
 	}
@@ -567,9 +696,10 @@ func (s *session) drain() {
 				s.perform(p, e)
 				progressed = true
 			}
-			if !p.busy && p.begun < p.ncalls {
-				s.doBegin(p)
-				progressed = true
+			if !p.busy && p.begun < p.ncalls && !p.stopped {
+				if s.doBegin(p) {
+					progressed = true
+				}
 			}
 		}
 		if progressed {
@@ -631,7 +761,7 @@ func runSchedule(c *schedCase, idx int, seed int, wait time.Duration) outcome {
 	client := c.Role == "client"
 	a, b := transport.NewConnPair()
 	s := &session{c: c, client: client, inner: a, procs: map[string]*proc{}, byGoid: map[int64]*proc{}, wait: wait,
-		umu: make(chan struct{}, 1)}
+		umu: make(chan struct{}, 1), peerSide: b, rdOpen: map[string]int{}}
 	s.umu <- struct{}{}
 	g := &gateConn{Conn: a, s: s}
 	s.conn = websocket.VerifNewConn(g, !client, 1024, c.Wbuf, false)
@@ -643,6 +773,9 @@ func runSchedule(c *schedCase, idx int, seed int, wait time.Duration) outcome {
 		peer.WriteControl(websocket.PongMessage, []byte(m), time.Now().Add(time.Second))
 		return nil
 	})
+	// the peer does not echo a Close frame: what the reader of the connection under test gets to see
+	// besides the pongs is what the schedule makes the peer send
+	peer.SetCloseHandler(func(int, string) error { return nil })
 
 	add := func(name string, ncalls int, do func(call int) error) *proc {
 		p := &proc{name: name, ncalls: ncalls, do: do, goCh: make(chan struct{}, 1), evc: make(chan procEvent, 4)}
@@ -659,15 +792,24 @@ func runSchedule(c *schedCase, idx int, seed int, wait time.Duration) outcome {
 		if plan.API == "wm" {
 			return s.conn.WriteMessage(websocket.BinaryMessage, data)
 		}
+		pauseAfter := func(i int) {
+			for _, k := range plan.Pause {
+				if k == i {
+					s.procs["D"].pause()
+				}
+			}
+		}
 		w, err := s.conn.NextWriter(websocket.BinaryMessage)
 		if err != nil {
 			return err
 		}
-		for _, n := range plan.Writes {
+		pauseAfter(0)
+		for i, n := range plan.Writes {
 			if _, err := w.Write(data[:n]); err != nil {
 				return err
 			}
 			data = data[n:]
+			pauseAfter(i + 1)
 		}
 		return w.Close()
 	})
@@ -692,16 +834,53 @@ func runSchedule(c *schedCase, idx int, seed int, wait time.Duration) outcome {
 			}
 		})
 	}
+	// the reading goroutine: the handlers of the frames the schedule makes the peer send are calls of R
+	// (the package's default handler or one of the application that answers with WriteControl)
+	reader := &proc{name: "R", reader: true, ncalls: len(c.Rd), evc: make(chan procEvent, 4)}
+	if len(c.Rd) > 0 {
+		s.procs["R"] = reader
+		s.order = append(s.order, reader)
+		defPing, defClose := s.conn.PingHandler(), s.conn.CloseHandler()
+		s.conn.SetPingHandler(func(m string) error {
+			j := s.injected(m)
+			if j == 0 {
+				return defPing(m)
+			}
+			dflt := strings.HasSuffix(c.Rd[j-1], "@")
+			return s.handle(reader, j, dflt, func() error {
+				if dflt {
+					return defPing(m)
+				}
+				return s.conn.WriteControl(websocket.PongMessage, []byte(m), far)
+			})
+		})
+		s.conn.SetCloseHandler(func(code int, text string) error {
+			j := s.injected(text)
+			if j == 0 {
+				return defClose(code, text)
+			}
+			dflt := strings.HasSuffix(c.Rd[j-1], "@")
+			return s.handle(reader, j, dflt, func() error {
+				if dflt {
+					return defClose(code, text)
+				}
+				return s.conn.WriteControl(websocket.CloseMessage, websocket.FormatCloseMessage(code, ""), far)
+			})
+		})
+	}
 	if c.Closer {
 		add("X", 1, func(call int) error { return s.conn.Close() })
 	}
 
 	// all goroutines exist (parked) before the schedule starts, so that the goroutine table is read-only afterwards
 	ready := make(chan struct{}, 8)
+	nproc := 0
 	for _, p := range s.order {
-		go s.runProc(p, ready)
+		if !p.reader {
+			nproc++
+			go s.runProc(p, ready)
+		}
 	}
-	reader := &proc{name: "R"}
 	readerDone, startReader := make(chan struct{}), make(chan struct{})
 	go func() { // the reader of the connection under test ("while ... another reads")
 		reader.goid = goid()
@@ -731,7 +910,7 @@ func runSchedule(c *schedCase, idx int, seed int, wait time.Duration) outcome {
 			got = append(got, delivered{t, data})
 		}
 	}()
-	for i := 0; i < len(s.order)+1; i++ {
+	for i := 0; i < nproc+1; i++ {
 		<-ready
 	}
 	for _, p := range s.order {
@@ -755,7 +934,9 @@ func runSchedule(c *schedCase, idx int, seed int, wait time.Duration) outcome {
 		case "b":
 			done = s.begin(p)
 		case "w":
-			done = s.step(p)
+			done = s.step(p, false)
+		case "a":
+			done = s.step(p, true)
 		default:
 			rp.Bug("schedule item %q", it)
 		}
@@ -765,7 +946,9 @@ func runSchedule(c *schedCase, idx int, seed int, wait time.Duration) outcome {
 	}
 	s.drain()
 	for _, p := range s.order {
-		close(p.goCh)
+		if !p.reader {
+			close(p.goCh)
+		}
 	}
 	<-s.umu
 	xClosed := s.closed
@@ -824,7 +1007,7 @@ func (s *session) tagWrites() (observed map[int][]bool, lastComplete map[int]boo
 			if have < h.plen && w.ok {
 				open, need = w, h.plen-have
 			}
-		case strings.HasPrefix(w.proc, "K"):
+		case strings.HasPrefix(w.proc, "K") || (w.proc == "R" && w.call > 0):
 			w.frame, w.part = 1, "ctl"
 			h, ok := parseHdr(w.bytes)
 			if !ok || int64(len(w.bytes)) != int64(h.hlen)+h.plen {
@@ -885,6 +1068,31 @@ func (s *session) evaluate(idx int, payloads [][]byte, got []delivered, xClosed 
 	if fragDeviates {
 		o.info["frag_deviates"] = true
 	}
+	// the pauses of D's application, per frame: a pause lies before the frame that follows the header
+	// writes the call had made when the application went on
+	hold := make([][]int, len(msgs))
+	for m := range msgs {
+		hold[m] = make([]int, len(msgs[m]))
+	}
+	hdrs := map[int]int{}
+	for _, e := range s.ev {
+		switch {
+		case e.Ev == "twrite" && e.Proc == "D" && s.writes[e.w].part == "hdr":
+			hdrs[e.Call]++
+		case e.Ev == "resume" && e.Call >= 1 && e.Call <= len(msgs):
+			f := hdrs[e.Call]
+			if n := len(hold[e.Call-1]); f >= n {
+				f = n - 1 // (a library that goes on after what it called the last frame: the specification will say so)
+			}
+			if f >= 0 {
+				hold[e.Call-1][f]++
+			}
+		}
+	}
+	rd := c.Rd
+	if rd == nil {
+		rd = []string{}
+	}
 
 	// events with the tags of their writes
 	var okWrites [][]byte
@@ -922,7 +1130,7 @@ func (s *session) evaluate(idx int, payloads [][]byte, got []delivered, xClosed 
 
 	o.line = map[string]interface{}{
 		"case": idx, "family": c.Family,
-		"prog":      map[string]interface{}{"msgs": msgs, "ctl": c.Ctl, "closer": c.Closer},
+		"prog":      map[string]interface{}{"msgs": msgs, "hold": hold, "ctl": c.Ctl, "rd": rd, "closer": c.Closer},
 		"ev":        append(s.ev, traceEv{Ev: "end", Ok: true}),
 		"frames":    frames,
 		"delivered": ids,
@@ -965,6 +1173,8 @@ func (s *session) evaluate(idx int, payloads [][]byte, got []delivered, xClosed 
 			lateBegun[e.Proc][e.Call] = true
 		case e.Ev == "ret" && lateBegun[e.Proc][e.Call] && e.Res == "timeout" && s.shortCall(e.Proc, e.Call):
 			// gave up waiting for the lock: it failed and wrote nothing
+		case e.Ev == "ret" && lateBegun[e.Proc][e.Call] && e.Res == "any":
+			// a default handler: its result is not shown (its write, if any, is on the record)
 		case e.Ev == "ret" && lateBegun[e.Proc][e.Call] && e.Res != "closesent":
 			problem("C15/late-write-not-close-sent", "%s call %d began after the Close frame was written and returned %q, not the close-sent error", e.Proc, e.Call, e.Res)
 		case e.Ev == "ret" && e.Proc == "X" && !xClosed:
@@ -1023,6 +1233,12 @@ func (s *session) evaluate(idx int, payloads [][]byte, got []delivered, xClosed 
 		}
 	}
 	o.info["extra"] = extraHeld
+	o.info["rd_calls"] = 0
+	if r := s.procs["R"]; r != nil {
+		o.info["rd_calls"] = r.begun
+	}
+	o.info["rd_open_app"] = s.rdOpen["app"]
+	o.info["rd_open_write"] = s.rdOpen["write"]
 	return o
 }
 
